@@ -17,7 +17,6 @@ Binding      : spec -> code: every state of the small exhaustive configuration (
                and both to be the specification's decoding of the bytes.  Verdict = ideal only.
 """
 import math, os, struct
-from concurrent.futures import ThreadPoolExecutor
 from harness import core, tlaval
 from harness import mem_common as mc
 
@@ -249,32 +248,44 @@ def judge(ctx, recs, bad):
 
 
 # ------------------------------------------------------------------ the check
-def design_level(ctx):
-    runs = [("MC_Unpack(1 item, large alphabets, 22 types x 8 misalignments)", unpack_cfg(1, True)),
+def design_runs(ctx):
+    return [("MC_Unpack(1 item, large alphabets, 22 types x 8 misalignments)", unpack_cfg(1, True)),
             ("MC_Unpack(<=%d items, small alphabets)" % (2 if ctx.quick else 3), unpack_cfg(2 if ctx.quick else 3, False))]
-    with ThreadPoolExecutor(3) as ex:
-        fr = [ex.submit(lambda x: (x[0], core.tlc("Unpack", cfg_text=x[1], workers=4, timeout=3000)), x) for x in runs]
-        fv = [ex.submit(lambda v: (v, core.tlc("Unpack", cfg_text=unpack_cfg(2, False, v), workers=2, timeout=1200)), v)
-              for v in VARIANTS]
-        for fu in fr:
-            name, r = fu.result()
-            ctx.add_tlc(name, r)
-        for fu in fv:
-            v, r = fu.result()
-            ctx.add_tlc("sanity:" + v, r, require_ok=False, count_states=False)
-            if r.ok or "is violated" not in r.out:
-                raise core.MachineryError("broken variant %s of the b_unpack model was not rejected by TLC:\n%s"
-                                          % (v, r.out[-1500:]))
+
+
+def submit_design(ctx, jobs):
+    for name, cfg in design_runs(ctx):
+        jobs.submit(name, "Unpack", cfg_text=cfg, workers=4, timeout=3000)
+    for v in VARIANTS:
+        jobs.submit("sanity:" + v, "Unpack", cfg_text=unpack_cfg(2, False, v), workers=2, timeout=1200)
+    # the known char32_t defect is visible at design level: without the exemption TLC must report it
+    jobs.submit("known-defect:char32", "Unpack", cfg_text=unpack_cfg(2, False).replace(
+        "INVARIANT FastEqualsGeneric", "INVARIANT FastEqualsGenericStrict"), workers=2, timeout=1200)
+
+
+def collect_design(ctx, jobs):
+    for name, _cfg in design_runs(ctx):
+        ctx.add_tlc(name, jobs.result(name))
+    for v in VARIANTS + ["known-defect:char32"]:
+        name = v if v.startswith("known") else "sanity:" + v
+        r = jobs.result(name)
+        ctx.add_tlc(name, r, require_ok=False, count_states=False)
+        if r.ok or "is violated" not in r.out:
+            raise core.MachineryError("%s: TLC did not reject it:\n%s" % (name, r.out[-1500:]))
 
 
 def norm_model(out):
     return {"st": out["st"], "vals": [V(v["t"], v["n"], v["a"]) for v in out["vals"]]}
 
 
-def spec_to_code(ctx, f, recs, divergences):
+def submit_dumps(ctx, jobs):
+    jobs.submit("dump(Unpack)", "Unpack", cfg_text=unpack_cfg(1 if ctx.quick else 2, False),
+                dump=os.path.join(ctx.tmp, "ug"), workers=4, timeout=1200)
+
+
+def spec_to_code(ctx, jobs, f, recs, divergences):
     dump = os.path.join(ctx.tmp, "ug")
-    r = core.tlc("Unpack", cfg_text=unpack_cfg(1 if ctx.quick else 2, False), dump=dump, workers=4, timeout=1200)
-    ctx.add_tlc("dump(Unpack)", r, count_states=False)
+    ctx.add_tlc("dump(Unpack)", jobs.result("dump(Unpack)"), count_states=False)
     g = tlaval.load_dot(dump + ".dot")
     cases = set()
     for idx, (sid, st) in enumerate(sorted(g.states.items())):
@@ -312,15 +323,20 @@ def code_to_spec(ctx, f, recs):
 def run(ctx):
     f, _bf = mc.ffis()
     check_platform(f)
-    if os.environ.get("VERIF_MEM_SKIP_DESIGN"):      # development aid for mutation experiments only
+    skip = bool(os.environ.get("VERIF_MEM_SKIP_DESIGN"))      # development aid for mutation experiments only
+    jobs = mc.TlcJobs()
+    submit_dumps(ctx, jobs)
+    if skip:
         ctx.cov["states"] = 1
     else:
-        design_level(ctx)
+        submit_design(ctx, jobs)
     recs, divergences = [], []
-    spec_to_code(ctx, f, recs, divergences)
+    spec_to_code(ctx, jobs, f, recs, divergences)
     nreplay = len(recs)
     code_to_spec(ctx, f, recs)
     bad, cases = validate(ctx, recs)
+    if not skip:
+        collect_design(ctx, jobs)
     judge(ctx, recs, bad)
     missing = set(range(-1, 12)) - cases
     if missing:
